@@ -140,6 +140,11 @@ func (s *Server) RegisterService(sd *grpc.ServiceDesc, ss interface{}) {
 
 func (s *Server) Serve(ctx context.Context, rw RpcReadWriter) error {
 	h := newHandler(s.ctx, s, rw)
+	// The connection is served for as long as ctx lasts: handlers run with
+	// contexts derived from it, so serving on without it would leave every
+	// stream with a dead context and its final status unsent.
+	stop := context.AfterFunc(ctx, func() { h.cancel(context.Cause(ctx)) })
+	defer stop()
 	err := h.serve(ctx)
 	h.cancelAndWaitForStreams()
 	return err
